@@ -105,9 +105,17 @@ def run_case(c):
         def go():
             B = bio.BIOGEME(d, formula, parameters=Parameters(), number_of_draws=R, number_of_threads=T)
             xv = [betas[k] for k in B.id_manager.free_betas.names]
-            return {'unscaled': ratio(B.calculate_likelihood(xv, scaled=False)),
-                    'scaled': ratio(B.calculate_likelihood(xv, scaled=True)),
-                    'free': list(B.id_manager.free_betas.names)}
+            out = {'unscaled': ratio(B.calculate_likelihood(xv, scaled=False)),
+                   'scaled': ratio(B.calculate_likelihood(xv, scaled=True)),
+                   'free': list(B.id_manager.free_betas.names)}
+            if xv:   # every quantity returned by calculate_likelihood_and_derivatives, scaled or not
+                for name, sc in (('d_unscaled', False), ('d_scaled', True)):
+                    o = B.calculate_likelihood_and_derivatives(xv, scaled=sc, hessian=True, bhhh=True)
+                    out[name] = {'function': ratio(o.function),
+                                 'gradient': [ratio(v) for v in np.ravel(o.gradient).tolist()],
+                                 'hessian': [ratio(v) for v in np.ravel(o.hessian).tolist()],
+                                 'bhhh': [ratio(v) for v in np.ravel(o.bhhh).tolist()]}
+            return out
         return go
 
     res['ll_mc'] = part(loglike(log(MonteCarlo(PanelLikelihoodTrajectory(g)))))
@@ -131,6 +139,132 @@ def run_case(c):
     if c.get('audit'):
         res['outside'] = part(outside)
     return res
+
+
+def run_steps(c):
+    """History kind 'steps': one Database object; a sequence of declarations Database.panel(column) (possibly
+    on different columns, possibly refused), direct edits of database.data (not through Database.remove) and
+    evaluations through every entry point (one-expression calculator: get_value_c, get_value_and_derivatives,
+    values_from_database, create_function; BIOGEME objects built afterwards).  Every step reports data."""
+    scale = c['scale']
+
+    def idval(v):
+        return v / scale if c['dtype'] == 'float' else int(v)
+
+    def idcol(vals):
+        if c['dtype'] == 'float':
+            return np.array([v / scale for v in vals], dtype=np.float64)
+        return np.array(vals, dtype=np.int64)
+
+    df = pd.DataFrame({'x': np.array(c['x'], dtype=np.float64), 'pid': idcol(c['cols']['pid']),
+                       'y': np.array(c['y'], dtype=np.float64), 'hid': idcol(c['cols']['hid'])})
+    d = Database('c09s', df)
+    calls = []
+
+    def tagged(sample_size, number_of_draws):
+        calls.append([int(sample_size), int(number_of_draws)])
+        return np.array([[1.0 + (32 * i + k) / 1024.0 for k in range(number_of_draws)]
+                         for i in range(sample_size)], dtype=np.float64).reshape(sample_size, number_of_draws)
+
+    d.set_random_number_generators({'TAGGED': (tagged, 'deterministic tagged draws')})
+    R, T, kind, beta = c['R'], c['threads'], c['kind'], c['beta']
+    betas = {} if kind == 'x' else {'b': beta}
+
+    def make():
+        x, y = Variable('x'), Variable('y')
+        b = Beta('b', beta, None, None, 0)
+        xi = bioDraws('xi', 'TAGGED')
+        if kind == 'x':
+            return x, x * xi
+        if kind == 'bx':
+            return b * x, b * x * xi
+        return x + b * y, x + b * y * xi
+
+    created = {}
+
+    def snapshot():
+        out = {'xs': [float(v) for v in d.data['x'].tolist()], 'col': d.panelColumn}
+        if d.individualMap is not None:
+            out['map'] = [[scaled_int(k, scale), int(a), int(b_)] for k, (a, b_) in
+                          zip(d.individualMap.index.tolist(), d.individualMap.values.tolist())]
+            out['sample_size'] = int(d.get_sample_size())
+        if d.theDraws is not None:
+            out['draws_shape'] = [int(v) for v in d.theDraws.shape]
+        return out
+
+    def lst(v):
+        return [ratio(t) for t in np.atleast_1d(np.asarray(v, dtype=np.float64)).ravel().tolist()]
+
+    def evaluate(entry):
+        f0, g = make()
+        if entry == 'gv_plain':
+            return lst(PanelLikelihoodTrajectory(f0).get_value_c(database=d, prepare_ids=True))
+        if entry == 'gv_mc':
+            return lst(MonteCarlo(PanelLikelihoodTrajectory(g)).get_value_c(
+                database=d, number_of_draws=R, prepare_ids=True))
+        if entry == 'gvd_plain':
+            return lst(PanelLikelihoodTrajectory(f0).get_value_and_derivatives(
+                database=d, gradient=False, hessian=False, bhhh=False, aggregation=False,
+                prepare_ids=True).functions)
+        if entry == 'gvd_sum':
+            return ratio(log(PanelLikelihoodTrajectory(f0)).get_value_and_derivatives(
+                database=d, gradient=False, hessian=False, bhhh=False, aggregation=True,
+                prepare_ids=True).function)
+        if entry == 'vfd':
+            return lst(d.values_from_database(PanelLikelihoodTrajectory(f0)))
+        if entry in ('cf_make', 'cf_call'):
+            if entry == 'cf_make' or 'fn' not in created:
+                created['fn'] = log(PanelLikelihoodTrajectory(f0)).create_function(
+                    database=d, gradient=False, hessian=False, bhhh=False)
+                if entry == 'cf_make':
+                    return 'made'
+            out = created['fn']([beta] if betas else [])
+            return ratio(out.function if hasattr(out, 'function') else out)
+        if entry == 'bio_sim':
+            B = bio.BIOGEME(d, {'plain': PanelLikelihoodTrajectory(f0), 'mc': MonteCarlo(PanelLikelihoodTrajectory(g))},
+                            parameters=Parameters(), number_of_draws=R, number_of_threads=T)
+            out = B.simulate(betas)
+            return {'index': [scaled_int(v, scale) for v in out.index.tolist()],
+                    'plain': lst(out['plain'].to_numpy()), 'mc': lst(out['mc'].to_numpy())}
+        if entry == 'bio_ll':
+            B = bio.BIOGEME(d, log(PanelLikelihoodTrajectory(f0)), parameters=Parameters(), number_of_threads=T)
+            xv = [betas[k] for k in B.id_manager.free_betas.names]
+            return {'unscaled': ratio(B.calculate_likelihood(xv, scaled=False)),
+                    'scaled': ratio(B.calculate_likelihood(xv, scaled=True))}
+        raise ValueError(f'unknown entry {entry}')
+
+    def edit(st):
+        op = st['op']
+        if op == 'append':
+            rows = st['rows']
+            new = pd.DataFrame({'x': np.array([r[2] for r in rows], dtype=np.float64),
+                                'pid': idcol([r[0] for r in rows]),
+                                'y': np.array([r[3] for r in rows], dtype=np.float64),
+                                'hid': idcol([r[1] for r in rows])})
+            d.data = pd.concat([d.data, new], ignore_index=True)
+        elif op == 'setid':
+            d.data.loc[d.data[st['col']] == idval(st['from']), st['col']] = idval(st['to'])
+        elif op == 'dropids':
+            d.data = d.data[~d.data[st['col']].isin([idval(v) for v in st['ids']])]
+        elif op == 'droprows':
+            d.data = d.data[~d.data['x'].isin(st['x'])]
+        elif op == 'permute':
+            d.data = d.data.iloc[st['perm']]
+        else:
+            raise ValueError(f'unknown edit {op}')
+        return True
+
+    out = []
+    for st in c['steps']:
+        if st['do'] == 'panel':
+            r = part(lambda: d.panel(st['col']) or True)
+        elif st['do'] == 'eval':
+            r = part(lambda: evaluate(st['entry']))
+        else:
+            r = part(lambda: edit(st))
+        r['after'] = part(snapshot)
+        out.append(r)
+    return {'panel': {'ok': True}, 'steps': out, 'gen_calls': calls}
 
 
 class InjectedFault(Exception):
@@ -191,7 +325,8 @@ def run_history(c):
 
     def estimate():
         try:
-            B.estimate(run_bootstrap=True)
+            r_est = B.estimate(run_bootstrap=True)
+            state['results'] = [int(r_est.data.sampleSize), int(r_est.data.numberOfObservations)]
             return 'completed'
         except InjectedFault:
             return 'interrupted'
@@ -200,6 +335,7 @@ def run_history(c):
 
     res['estimate'] = part(estimate)
     res['optimize_calls'] = calls['n']
+    res['results_sizes'] = state.get('results')
     res['ll_after'] = part(lambda: ratio(B.calculate_likelihood([b0], scaled=False)))
     res['ll_after_scaled'] = part(lambda: ratio(B.calculate_likelihood([b0], scaled=True)))
     res['lld_after'] = part(lambda: ratio(
@@ -224,7 +360,8 @@ def main():
     out = []
     for c in cases:
         try:
-            out.append(run_history(c) if c.get('history') == 'bootstrap' else run_case(c))
+            out.append(run_history(c) if c.get('history') == 'bootstrap' else
+                       run_steps(c) if c.get('history') == 'steps' else run_case(c))
         except Exception as e:  # noqa
             out.append({'runner': {'ok': False, 'exc': type(e).__name__, 'msg': str(e)[:300]}})
     print('@@' + json.dumps(out))
